@@ -51,6 +51,22 @@ Theorem C05_cat_exact : forall (F : Type) (NF : Num F) (s : F) (payloads : list 
 Proof. intros F NF. exact (@cat0_commutes_with_dequantize F NF). Qed.
 Print Assumptions C05_cat_exact.
 
+(* the one op that keeps a PER-AXIS tensor quantized while moving data - aten.t on a matrix quantized along its
+   first axis (the payload and the (a,1) scale are transposed, the axis flips): for any number type and any a x b
+   matrix, transposing the dequantized matrix equals dequantizing the transposed payload with the transposed scale *)
+From QV Require Import Proofs.QuantProofs Proofs.QOpsAxisT.
+Theorem C05_per_axis_transpose_exact : forall (F : Type) (NF : Num F) (a b : Z) (sd dd : list F),
+  (0 < a)%Z -> (0 < b)%Z -> zlen dd = (a * b)%Z ->
+  t_permute f0 [1; 0]%Z (deq_axis [a; b]%Z [a; 1]%Z sd dd) =
+  (moved <- t_permute f0 [1; 0]%Z (T [a; b]%Z dd) ;; Ok (deq_axis [b; a]%Z [1; a]%Z sd (data moved))).
+Proof. intros F NF. exact (@transpose2d_commutes_with_dequantize F NF). Qed.
+Print Assumptions C05_per_axis_transpose_exact.
+
+(* comparison class (lt on integer codes when qtype and scale agree): with a positive common scale the order of the
+   dequantized values is the order of the codes *)
+Theorem C05_compare_exact : forall s a b : R, (0 < s)%R -> ((s * a < s * b)%R <-> (a < b)%R).
+Proof. exact compare_codes_exact. Qed.
+
 Example C05_classes : class_of "split" = Some CMove /\ class_of "mul" = Some CRescale /\ class_of "_softmax" = Some CRequant.
 Proof. repeat split. Qed.
 
